@@ -64,6 +64,8 @@ pub enum IoOp {
     ReadToString,
     /// BufRead::read_line (same payload)
     ReadLine,
+    /// BufRead::skip_until with a delimiter taken from position k of the contents (or absent)
+    SkipUntil(Amt),
     /// async traits only: create the future of write / read / flush / fill_buf and drop it without polling it;
     /// nothing may have happened (futures are inert until polled)
     Unpolled(u8, u32),
@@ -114,6 +116,7 @@ pub trait ByteDeq {
     fn s_read_to_end(&mut self, v: &mut Vec<u8>) -> std::io::Result<usize>;
     fn s_write_fmt(&mut self, s: &str) -> std::io::Result<()>;
     fn s_read_until(&mut self, delim: u8, v: &mut Vec<u8>) -> std::io::Result<usize>;
+    fn s_skip_until(&mut self, delim: u8) -> std::io::Result<usize>;
     fn s_read_vectored(&mut self, d: [&mut [u8]; 3]) -> std::io::Result<usize>;
     fn s_write_vectored(&mut self, s: [&[u8]; 3]) -> std::io::Result<usize>;
     fn s_bytes(&mut self, k: usize) -> Vec<Result<u8, String>>;
@@ -217,6 +220,9 @@ impl<const N: usize> ByteDeq for CircularBuffer<N, u8> {
     }
     fn s_read_until(&mut self, delim: u8, v: &mut Vec<u8>) -> std::io::Result<usize> {
         BufRead::read_until(self, delim, v)
+    }
+    fn s_skip_until(&mut self, delim: u8) -> std::io::Result<usize> {
+        BufRead::skip_until(self, delim)
     }
     fn s_read_vectored(&mut self, d: [&mut [u8]; 3]) -> std::io::Result<usize> {
         let [a, b, c] = d;
@@ -358,7 +364,7 @@ fn make(n: usize, boxed: bool) -> Box<dyn ByteDeq> {
     }
 }
 
-pub const BIG_IO_CAPS: [usize; 4] = [4097, 4098, 5000, 10000];
+pub const BIG_IO_CAPS: [usize; 9] = [65, 100, 129, 256, 1000, 4097, 4098, 5000, 10000];
 
 thread_local! {
     static OFF: std::cell::RefCell<std::collections::HashMap<usize, usize>> = Default::default();
@@ -907,6 +913,25 @@ pub fn run_io_case(case: &IoCase) -> Result<u64, String> {
                 }
                 model.drain(..take);
             }
+            IoOp::SkipUntil(k) => {
+                if api != Api::Std {
+                    continue;
+                }
+                let p = k.resolve(len);
+                let delim = if p < len { model[p] } else { 0xFE };
+                let want = match model.iter().position(|b| *b == delim) {
+                    Some(i) => i + 1,
+                    None => len,
+                };
+                let r = guard("skip_until", || a.b.s_skip_until(delim))?.map_err(|e| e.to_string());
+                if r != Ok(want) {
+                    return Err(ctx(format!("skip_until({delim}) returned {:?}, expected Ok({want}) for contents {:?}", r, model)));
+                }
+                if want < len {
+                    flags |= iofl::PARTIAL;
+                }
+                model.drain(..want);
+            }
             IoOp::Consume(k) => {
                 let k = k.resolve(len);
                 if k > len {
@@ -976,6 +1001,7 @@ pub fn enum_ops(n: usize, len: usize, full: bool) -> Vec<IoOp> {
         ops.push(IoOp::Consume(k));
         ops.push(IoOp::FillBufConsume(k));
         ops.push(IoOp::ReadUntil(k));
+        ops.push(IoOp::SkipUntil(k));
     }
     ops.push(IoOp::CopyOut);
     ops.push(IoOp::ReadToString);
@@ -1010,8 +1036,8 @@ pub fn enum_ops(n: usize, len: usize, full: bool) -> Vec<IoOp> {
 
 /// Sparse space for the big capacities: every operation with amounts around 0, the page size, the length and the capacity.
 fn big_cases(n: usize, start: usize, len: usize, api: Api) -> Vec<IoCase> {
-    let mut ks: Vec<usize> = vec![0, 1, 2, 100, 4095, 4096, 4097, len / 2, n / 2];
-    for d in [0usize, 1, 2, 100, 4095, 4096, 4097] {
+    let mut ks: Vec<usize> = vec![0, 1, 2, 31, 32, 33, 63, 64, 65, 100, 4095, 4096, 4097, len / 2, n / 2];
+    for d in [0usize, 1, 2, 31, 32, 33, 63, 64, 65, 100, 4095, 4096, 4097] {
         ks.push(len.saturating_sub(d));
         ks.push(len + d);
         ks.push(n.saturating_sub(d));
@@ -1022,7 +1048,7 @@ fn big_cases(n: usize, start: usize, len: usize, api: Api) -> Vec<IoCase> {
     let mut ops = vec![IoOp::FillBuf, IoOp::Flush, IoOp::ReadToEnd, IoOp::CopyOut, IoOp::Consume(Amt::Max), IoOp::FillBufConsume(Amt::Max), IoOp::ReadUntil(Amt::Max)];
     for k in &ks {
         let k = *k as u32;
-        ops.extend([IoOp::Write(k), IoOp::Read(k), IoOp::Consume(Amt::At(k)), IoOp::FillBufConsume(Amt::At(k)), IoOp::ReadUntil(Amt::At(k)), IoOp::ReadExact(k), IoOp::TakeToEnd(k)]);
+        ops.extend([IoOp::Write(k), IoOp::Read(k), IoOp::Consume(Amt::At(k)), IoOp::FillBufConsume(Amt::At(k)), IoOp::ReadUntil(Amt::At(k)), IoOp::SkipUntil(Amt::At(k)), IoOp::ReadExact(k), IoOp::TakeToEnd(k)]);
         ops.push(IoOp::ReadVectored(k, 3, 4097));
         ops.push(IoOp::WriteVectored(k, 1, 4097));
     }
@@ -1078,7 +1104,8 @@ pub fn io_case_strategy(api: Api, max_ops: usize) -> proptest::strategy::BoxedSt
                 3 => Just(IoOp::FillBuf),
                 4 => amt.clone().prop_map(IoOp::Consume),
                 4 => amt.clone().prop_map(IoOp::FillBufConsume),
-                2 => amt.prop_map(IoOp::ReadUntil),
+                2 => amt.clone().prop_map(IoOp::ReadUntil),
+                2 => amt.prop_map(IoOp::SkipUntil),
                 1 => Just(IoOp::Flush),
                 3 => (sz.clone(), sz.clone(), sz.clone()).prop_map(|(a, b, c)| IoOp::ReadVectored(a, b, c)),
                 2 => (sz.clone(), sz.clone(), sz.clone()).prop_map(|(a, b, c)| IoOp::WriteVectored(a, b, c)),
@@ -1210,7 +1237,10 @@ pub fn run_io(apis: &[Api], thorough: bool, seed: u64, threads: usize, prop_case
     for api in apis {
         for &n in &BIG_IO_CAPS {
             for start in [0, 1, n / 2, n - 1] {
-                for len in [0, 1, 4095, 4096, 4097, n - 4097, n - 1, n] {
+                for len in [0, 1, 63, 64, 65, n / 2, n / 2 + 1, 4095, 4096, 4097, n.saturating_sub(4097), n.saturating_sub(65), n - 1, n] {
+                    if len > n {
+                        continue;
+                    }
                     units.push((*api, n, start, len));
                 }
             }
